@@ -19,6 +19,7 @@ META = {
 }
 META['explanation'] += ' R11.9 the jump placeholder is only written, never read back. R11.10 every statement of a block, branch and loop body is compiled.'
 META['explanation'] += ' R11.11 `anders als` chains nest each further `als` inside the alternative of the one before, so the conditions are tested in the order written.'
+META['explanation'] += ' R11.12 whether an operand follows `antwoord` (and the like) is not decided by a list of expression-start tokens that lacks one the parser accepts.'
 COMPILER = 'compiler::Compiler'
 
 
@@ -124,6 +125,8 @@ def run(ctx, rep):
     rep.rule('R11.11', '`anders als` chains test their conditions in the order written: the parser nests each further `als` inside the alternative of the one before (a one-statement block holding the if-expression that starts there)')
     from rules import c07 as _c07
     _c07.check_else_if(ctx, rep, 'R11.11')
+    rep.rule('R11.12', '`antwoord`, `stop` and the like take what follows them: a list of the tokens an expression can start with, used to decide whether an operand follows, agrees with the parser\'s own prefix dispatch')
+    _c07.check_expression_starters(ctx, rep, 'R11.12')
     rep.rule('R11.9', 'the jump placeholder is only written, never read back: no code compares a value with it, so a jump whose real target equals the placeholder is an ordinary jump')
     _shared.check_placeholder_write_only(ctx, rep, 'R11.9')
 
